@@ -389,6 +389,35 @@ _code = {}
 
 
 _baseline = None
+KNOB_SHIFT = 0          # set per run from the plan (world.run_plan); see _shrink_new_constants
+_API = None
+
+
+def _shrink_new_constants(mods):
+    """Tuning knobs: numeric module-level constants that a change under test
+    ADDS to the library (thresholds, chunk / cache sizes: UPPER_CASE ints or
+    floats >= 64 that the pinned tree does not have) are divided by 2**KNOB_SHIFT
+    for this run - in the simulation and in its reference alike - so that the
+    code behind a size threshold runs with the small inputs the simulator draws
+    ("a cache too large for the miss path to run is the classic blind spot")."""
+    global _API
+    if not KNOB_SHIFT:
+        return
+    import json
+    import os
+    if _API is None:
+        with open(os.path.join(os.path.dirname(__file__), "api_baseline.json")) as f:
+            _API = json.load(f)
+    known = _API.get("__consts__", {})
+    for m in mods:
+        have = set(known.get(m.__name__, ()))
+        for k, v in list(m.__dict__.items()):
+            if k in have or not k.isupper() or isinstance(v, bool):
+                continue
+            if isinstance(v, int) and v >= 64:
+                m.__dict__[k] = max(4, v >> KNOB_SHIFT)
+            elif isinstance(v, float) and v >= 64:
+                m.__dict__[k] = max(4.0, v / (2 ** KNOB_SHIFT))
 
 
 def _reset_process_state():
@@ -488,6 +517,7 @@ def fresh_library(patch_stream=False):
          _threading.BoundedSemaphore) = _saved
     _time_proxy.reset()
     _patch_library_locks(mods)
+    _shrink_new_constants(mods)
     L.orig_resource_stream = L.coeffs.__dict__.get("resource_stream")
     if patch_stream and L.orig_resource_stream is not None:
         L.coeffs.resource_stream = make_resource_stream(L.orig_resource_stream)
